@@ -40,7 +40,9 @@ var injectKinds = []string{"goto", "labelled-break", "labelled-continue", "selec
 	"defer-in-else-if-arm", "select-in-else-arm", "defer-in-third-arm",
 	// Yield taken as a function value OUTSIDE any function (a package-level variable) and
 	// called through it in the generator: the call is not a yield for the compiler
-	"yield-as-package-level-value"}
+	"yield-as-package-level-value",
+	// fallthrough directly behind a compound statement that yields on some paths only
+	"fallthrough-after-yielding-if", "fallthrough-after-yielding-if-else", "fallthrough-after-yielding-switch"}
 
 // rawInject returns the source text of the construct (placeholders as in templates).
 func rawInject(kind string, tag func() int, control bool) string {
@@ -67,6 +69,12 @@ func rawInject(kind string, tag func() int, control bool) string {
 		return fmt.Sprintf("if len(\"x\") == 1 {\n\tdefer vrt.E(%d)\n}\n%s", tag(), y("94"))
 	case "fallthrough-yielding":
 		return fmt.Sprintf("switch 1 {\ncase 1:\n\t%s\n\tfallthrough\ncase 2:\n\t%s\n}", y("95"), y("96"))
+	case "fallthrough-after-yielding-if":
+		return fmt.Sprintf("for f9 := 0; f9 < 2; f9++ {\n\tswitch 1 {\n\tcase 1:\n\t\tif f9 == 1 {\n\t\t\t%s\n\t\t}\n\t\tfallthrough\n\tcase 2:\n\t\t%s\n\t}\n\tvrt.E(%d, f9)\n}", y("95"), y("96+f9"), tag())
+	case "fallthrough-after-yielding-if-else":
+		return fmt.Sprintf("for f9 := 0; f9 < 2; f9++ {\n\tswitch 1 {\n\tcase 1:\n\t\tif f9 == 0 {\n\t\t\tvrt.E(%d)\n\t\t} else {\n\t\t\t%s\n\t\t}\n\t\tfallthrough\n\tcase 2:\n\t\t%s\n\t}\n}", tag(), y("95"), y("96+f9"))
+	case "fallthrough-after-yielding-switch":
+		return fmt.Sprintf("for f9 := 0; f9 < 3; f9++ {\n\tswitch {\n\tcase f9 < 2:\n\t\tswitch f9 {\n\t\tcase 1:\n\t\t\t%s\n\t\t}\n\t\tfallthrough\n\tdefault:\n\t\t%s\n\t}\n}", y("95"), y("96+f9"))
 	case "range-func":
 		return fmt.Sprintf("for v9 := range func(yield func(int) bool) {\n\t_ = yield(1) && yield(2)\n} {\n\t%s\n}", y("v9"))
 	case "range-ptr-array":
